@@ -49,7 +49,20 @@ class LiteralTypeHint(TypeHint):
         # all child hints subscripting this literal is a subset of the set of
         # all child hints subscripting that literal.
         if isinstance(other, LiteralTypeHint):
-            return all(self_arg in other._args for self_arg in self._args)
+            #
+            # Note that child hints are intentionally compared by both type and
+            # value (exactly as the "typing.Literal" factory itself compares
+            # them) rather than merely by value. Literals of differing types
+            # that nonetheless compare equal (e.g., "Literal[0]" and
+            # "Literal[False]") accept differing objects and are thus *NOT*
+            # subhints of one another.
+            return all(
+                any(
+                    type(self_arg) is type(other_arg) and self_arg == other_arg
+                    for other_arg in other._args
+                )
+                for self_arg in self._args
+            )
         # Else, the passed hint is *NOT* also a literal.
 
         # Return true only if either...
